@@ -80,6 +80,11 @@ type c21schema struct{ u, b uint64 }
 type c21created struct {
 	global c21schema
 	pages  uint64
+	// sponsor: the account that pays for the global schema and the extra pages. Per the
+	// protocol it "begins as the creator, but changes whenever there is a size-changing
+	// update": the harness tracks it from the update transactions it submitted (zero = creator),
+	// not from the SizeSponsor field of the record.
+	sponsor basics.Address
 }
 
 type c21res struct {
@@ -114,15 +119,30 @@ func (r *c21res) empty() bool {
 	return len(r.assets) == 0 && len(r.created) == 0 && len(r.optin) == 0 && len(r.boxes) == 0
 }
 
-// min: the minimum balance per the spec constants.
-func (r *c21res) min(p *config.ConsensusParams) uint64 {
-	m := p.MinBalance * (1 + uint64(len(r.assets)))
-	sch := func(s c21schema) uint64 {
-		return p.SchemaMinBalancePerEntry*(s.u+s.b) + p.SchemaUintMinBalance*s.u + p.SchemaBytesMinBalance*s.b
+func c21schemaCost(p *config.ConsensusParams, s c21schema) uint64 {
+	return p.SchemaMinBalancePerEntry*(s.u+s.b) + p.SchemaUintMinBalance*s.u + p.SchemaBytesMinBalance*s.b
+}
+
+// c21min: the minimum balance of account a per the spec constants, from the enumerated
+// resources of all accounts (the size of an app is charged to its sponsor).
+func c21min(p *config.ConsensusParams, all map[basics.Address]*c21res, a basics.Address) uint64 {
+	r, ok := all[a]
+	if !ok {
+		r = c21newRes()
 	}
-	for _, c := range r.created {
-		m += p.AppFlatParamsMinBalance * (1 + c.pages)
-		m += sch(c.global)
+	m := p.MinBalance * (1 + uint64(len(r.assets)))
+	sch := func(s c21schema) uint64 { return c21schemaCost(p, s) }
+	m += p.AppFlatParamsMinBalance * uint64(len(r.created))
+	for creator, cr := range all {
+		for _, c := range cr.created {
+			payer := c.sponsor
+			if payer.IsZero() {
+				payer = creator
+			}
+			if payer == a {
+				m += p.AppFlatParamsMinBalance*c.pages + sch(c.global)
+			}
+		}
 	}
 	for _, s := range r.optin {
 		m += p.AppFlatOptInMinBalance
@@ -140,7 +160,11 @@ func (r *c21res) dump() string {
 		parts = append(parts, fmt.Sprintf("a%d", k))
 	}
 	for k, v := range r.created {
-		parts = append(parts, fmt.Sprintf("c%d:%d/%d/%d", k, v.global.u, v.global.b, v.pages))
+		sp := ""
+		if !v.sponsor.IsZero() {
+			sp = fmt.Sprintf("@%x", v.sponsor[:3])
+		}
+		parts = append(parts, fmt.Sprintf("c%d:%d/%d/%d%s", k, v.global.u, v.global.b, v.pages, sp))
 	}
 	for k, v := range r.optin {
 		parts = append(parts, fmt.Sprintf("o%d:%d/%d", k, v.u, v.b))
@@ -274,11 +298,37 @@ const c21workerSource = `
 	  itxn_submit
 	  b end
 	n7:
-	txn ApplicationArgs 0; byte "co"; ==; bz bad
+	txn ApplicationArgs 0; byte "co"; ==; bz n8
 	  itxn_begin
 	  int pay; itxn_field TypeEnum
 	  txn Accounts 1; itxn_field CloseRemainderTo
 	  itxn_submit
+	  b end
+	n8:
+	txn ApplicationArgs 0; byte "fam"; ==; bz bad
+	  int 1; app_params_set AppFamilyBoxAccess
+	  b end
+	bad:
+	  err
+`
+
+// c21siblingSource: an app of the same creator as the worker ("family"); it manipulates boxes
+// in the namespace of the app in Applications 1.
+const c21siblingSource = `
+	txn ApplicationArgs 0; byte "fc"; ==; bz s1
+	  txn Applications 1; txn ApplicationArgs 1; txn ApplicationArgs 2; btoi; app_box_create; assert
+	  b end
+	s1:
+	txn ApplicationArgs 0; byte "fp"; ==; bz s2
+	  txn Applications 1; txn ApplicationArgs 1; txn ApplicationArgs 2; btoi; bzero; app_box_put
+	  b end
+	s2:
+	txn ApplicationArgs 0; byte "fr"; ==; bz s3
+	  txn Applications 1; txn ApplicationArgs 1; txn ApplicationArgs 2; btoi; app_box_resize
+	  b end
+	s3:
+	txn ApplicationArgs 0; byte "fd"; ==; bz bad
+	  txn Applications 1; txn ApplicationArgs 1; app_box_del; assert
 	  b end
 	bad:
 	  err
@@ -291,10 +341,12 @@ type c21world struct {
 	rich, target, other, sink, pool basics.Address
 	asset                           basics.AssetIndex
 	appL1, appLmax, worker          basics.AppIndex
+	sibling, appX                   basics.AppIndex
 	init                            map[basics.Address]*c21res // resources as of the ledger's latest round
 	known                           []basics.Address
 	ops                             []c21op
 	rejected                        atomic.Int64
+	sponsorClosed, orphanHits       atomic.Int64
 	opAcc, opRej                    []atomic.Int64
 }
 
@@ -362,6 +414,27 @@ func c21newWorld(t *testing.T) (*c21world, error) {
 	if err := one(&txntest.Txn{Type: "pay", Sender: w.rich, Receiver: w.worker.Address(), Amount: w.proto.MinBalance}); err != nil {
 		return nil, err
 	}
+	// S: a sibling of W (same creator R), rich enough to be (wrongly) charged for anything
+	if err := one(&txntest.Txn{Type: "appl", Sender: w.rich, ApprovalProgram: main(c21siblingSource), Note: "S"}); err != nil {
+		return nil, err
+	}
+	w.sibling = basics.AppIndex(ev.TestingTxnCounter())
+	if err := one(&txntest.Txn{Type: "pay", Sender: w.rich, Receiver: w.sibling.Address(), Amount: 10_000_000}); err != nil {
+		return nil, err
+	}
+	// W lets its family write its boxes
+	if err := one(txntest.Txn{Type: "appl", Sender: w.rich, ApplicationID: w.worker}.Args("fam")); err != nil {
+		return nil, err
+	}
+	// X: an app of R that approves updates and deletes by anyone (size sponsorship ops)
+	if err := one(&txntest.Txn{Type: "appl", Sender: w.rich, ApprovalProgram: "int 1", GlobalStateSchema: basics.StateSchema{NumUint: 1}, Note: "X"}); err != nil {
+		return nil, err
+	}
+	w.appX = basics.AppIndex(ev.TestingTxnCounter())
+	// U starts with schema-bearing state of its own (opted into L1)
+	if err := one(&txntest.Txn{Type: "appl", Sender: w.other, ApplicationID: w.appL1, OnCompletion: transactions.OptInOC}); err != nil {
+		return nil, err
+	}
 	ub, err := ev.GenerateBlock(nil)
 	if err != nil {
 		return nil, err
@@ -375,7 +448,7 @@ func c21newWorld(t *testing.T) (*c21world, error) {
 		return nil, err
 	}
 	w.l.WaitForCommit(w.l.Latest())
-	w.known = []basics.Address{w.rich, w.target, w.other, w.sink, w.pool, w.worker.Address()}
+	w.known = []basics.Address{w.rich, w.target, w.other, w.sink, w.pool, w.worker.Address(), w.sibling.Address()}
 	// enumerate the resources the ledger holds for the known accounts
 	w.init = map[basics.Address]*c21res{}
 	for _, a := range w.known {
@@ -388,7 +461,7 @@ func c21newWorld(t *testing.T) (*c21world, error) {
 			r.assets[idx] = true
 		}
 		for idx, p := range ad.AppParams {
-			r.created[idx] = c21created{c21schema{p.GlobalStateSchema.NumUint, p.GlobalStateSchema.NumByteSlice}, uint64(p.ExtraProgramPages)}
+			r.created[idx] = c21created{global: c21schema{p.GlobalStateSchema.NumUint, p.GlobalStateSchema.NumByteSlice}, pages: uint64(p.ExtraProgramPages)}
 		}
 		for idx, ls := range ad.AppLocalStates {
 			r.optin[idx] = c21schema{ls.Schema.NumUint, ls.Schema.NumByteSlice}
@@ -423,6 +496,11 @@ type c21sys struct {
 	res   map[basics.Address]*c21res
 	steps int
 	herr  error
+	// orphaned: in this history an account was closed while the harness' model has it as the
+	// size sponsor of somebody else's app (known finding C21:orphaned-size-sponsorship: the
+	// close is accepted and wipes the sponsor's counters). Every violation met afterwards in
+	// the same history is reported under that key.
+	orphaned bool
 }
 
 func c21new(w *c21world) *c21sys {
@@ -460,7 +538,7 @@ func (s *c21sys) resOf(a basics.Address) *c21res {
 }
 
 func (s *c21sys) bal(a basics.Address) uint64 { return s.acct(a).MicroAlgos.Raw }
-func (s *c21sys) min(a basics.Address) uint64 { return s.resOf(a).min(&s.w.proto) }
+func (s *c21sys) min(a basics.Address) uint64 { return c21min(&s.w.proto, s.res, a) }
 
 // boxOwner parses "bx:" + 8-byte big-endian app id + name (spec of the kv key space).
 func c21boxOwner(key string) (basics.AppIndex, string, bool) {
@@ -518,7 +596,8 @@ func (s *c21sys) submit(txs []*txntest.Txn) (bool, error) {
 		if a.paramsDel {
 			delete(r.created, a.aidx)
 		} else if a.paramsSet {
-			r.created[a.aidx] = c21created{a.global, a.pages}
+			prev := r.created[a.aidx] // keeps the harness-tracked sponsor of an existing app
+			r.created[a.aidx] = c21created{global: a.global, pages: a.pages, sponsor: prev.sponsor}
 		}
 		if a.localDel {
 			delete(r.optin, a.aidx)
@@ -541,35 +620,127 @@ func (s *c21sys) submit(txs []*txntest.Txn) (bool, error) {
 	for _, br := range s.tr.accts {
 		s.view[br.Addr] = br.AccountData
 	}
-	// oracle
-	level := uint64(0) // the pool sits at its minimum: the rewards level never moves (checked below)
-	for _, br := range s.tr.accts {
-		if br.Addr == w.sink || br.Addr == w.pool || br.Addr == transactions.StateProofSender {
+	// a close of an account that the model has as the size sponsor of another account's app
+	// (also when it is re-funded inside the same group): known finding, see c21sys.orphaned
+	for i := range stxns {
+		tx := &stxns[i].Txn
+		if tx.Type == protocol.PaymentTx && !tx.CloseRemainderTo.IsZero() && s.sponsors(tx.Sender) && !s.orphaned {
+			s.orphaned = true
+			w.sponsorClosed.Add(1)
+		}
+	}
+	// size sponsorship follows the size-changing updates that were just accepted
+	check := map[basics.Address]bool{}
+	for i := range stxns {
+		tx := &stxns[i].Txn
+		if tx.Type != protocol.ApplicationCallTx || tx.OnCompletion != transactions.UpdateApplicationOC {
 			continue
 		}
-		ad := br.AccountData
-		r := s.resOf(br.Addr)
+		if tx.ExtraProgramPages == 0 && tx.GlobalStateSchema.NumUint == 0 && tx.GlobalStateSchema.NumByteSlice == 0 {
+			continue
+		}
+		for creator, r := range s.res {
+			if c, ok := r.created[tx.ApplicationID]; ok {
+				old := c.sponsor
+				if old.IsZero() {
+					old = creator
+				}
+				check[old] = true
+				check[creator] = true
+				c.sponsor = tx.Sender
+				if tx.Sender == creator {
+					c.sponsor = basics.Address{}
+				}
+				r.created[tx.ApplicationID] = c
+			}
+		}
+	}
+	// oracle: every account of the delta, plus every account whose enumerated resources
+	// changed (box owner, resource record owner, old/new sponsor) even if its record did not
+	for _, br := range s.tr.accts {
+		check[br.Addr] = true
+	}
+	for _, a := range s.tr.assets {
+		check[a.addr] = true
+	}
+	for _, a := range s.tr.apps {
+		check[a.addr] = true
+	}
+	for _, kv := range s.tr.kvs {
+		if app, _, ok := c21boxOwner(kv.key); ok {
+			check[app.Address()] = true
+		}
+	}
+	for i := range stxns {
+		check[stxns[i].Txn.Sender] = true
+	}
+	addrs := make([]basics.Address, 0, len(check))
+	for a := range check {
+		addrs = append(addrs, a)
+	}
+	sort.Slice(addrs, func(i, j int) bool { return string(addrs[i][:]) < string(addrs[j][:]) })
+	level := uint64(0) // the pool sits at its minimum: the rewards level never moves (checked below)
+	for _, addr := range addrs {
+		if addr == w.sink || addr == w.pool || addr == transactions.StateProofSender {
+			continue
+		}
+		ad := s.acct(addr)
+		if s.herr != nil {
+			return true, s.herr
+		}
+		r := s.resOf(addr)
 		if ad.IsZero() {
 			if !r.empty() {
-				return true, ve.Violationf("C21:closed-with-resources", "account %s has a zero record but still owns resources {%s}", c21short(w, br.Addr), r.dump())
+				return true, s.violation("C21:closed-with-resources", "account %s has a zero record but still owns resources {%s}", c21short(w, addr), r.dump())
+			}
+			if s.sponsors(addr) && !s.orphaned {
+				s.orphaned = true
+				w.sponsorClosed.Add(1)
 			}
 			continue
 		}
 		if ad.RewardsBase != level {
 			return true, fmt.Errorf("rewards level moved (%d)", ad.RewardsBase)
 		}
-		m := r.min(&w.proto)
+		m := s.min(addr)
 		repo := ad.MinBalance(&w.proto).Raw
 		if m != repo {
-			return true, ve.Violationf("C21:minbalance-formula", "account %s with resources {%s}: minimum balance recomputed from the spec constants is %d, the repo's MinBalance says %d (counters: assets %d, appParams %d, locals %d, schema %d/%d, pages %d, boxes %d/%d bytes)",
-				c21short(w, br.Addr), r.dump(), m, repo, ad.TotalAssets, ad.TotalAppParams, ad.TotalAppLocalStates, ad.TotalAppSchema.NumUint, ad.TotalAppSchema.NumByteSlice, ad.TotalExtraAppPages, ad.TotalBoxes, ad.TotalBoxBytes)
+			return true, s.violation("C21:minbalance-formula", "account %s with resources {%s}: minimum balance recomputed from the spec constants and the enumerated resources (incl. sponsored app sizes) is %d, the repo's MinBalance says %d (counters: assets %d, appParams %d, locals %d, schema %d/%d, pages %d, boxes %d/%d bytes)",
+				c21short(w, addr), r.dump(), m, repo, ad.TotalAssets, ad.TotalAppParams, ad.TotalAppLocalStates, ad.TotalAppSchema.NumUint, ad.TotalAppSchema.NumByteSlice, ad.TotalExtraAppPages, ad.TotalBoxes, ad.TotalBoxBytes)
 		}
 		if ad.MicroAlgos.Raw < m {
-			return true, ve.Violationf("C21:below-min", "after an accepted group account %s holds %d < minimum balance %d implied by its resources {%s}", c21short(w, br.Addr), ad.MicroAlgos.Raw, m, r.dump())
+			return true, s.violation("C21:below-min", "after an accepted group account %s holds %d < minimum balance %d implied by its resources {%s}", c21short(w, addr), ad.MicroAlgos.Raw, m, r.dump())
 		}
 	}
 	return true, nil
 }
+
+// sponsors: does the model have a as the size sponsor of an app created by someone else?
+func (s *c21sys) sponsors(a basics.Address) bool {
+	for creator, r := range s.res {
+		for _, c := range r.created {
+			if c.sponsor == a && creator != a {
+				return true
+			}
+		}
+	}
+	return false
+}
+
+func (s *c21sys) violation(key, format string, args ...any) error {
+	msg := fmt.Sprintf(format, args...)
+	if s.orphaned {
+		msg = "[history contains the close of an account that was sponsoring the size of another account's app] " + msg
+		if os.Getenv("VERIF_C21_DEV_ORPHAN_AS_NOTE") != "" { // development only: lets the exploration go on before the finding is listed
+			s.w.orphanHits.Add(1)
+			return errC21orphanDev
+		}
+		key = "C21:orphaned-size-sponsorship"
+	}
+	return ve.Violationf(key, "%s", msg)
+}
+
+var errC21orphanDev = errors.New("orphaned sponsorship (dev)")
 
 func c21short(w *c21world, a basics.Address) string {
 	switch a {
@@ -581,6 +752,8 @@ func c21short(w *c21world, a basics.Address) string {
 		return "U"
 	case w.worker.Address():
 		return "W"
+	case w.sibling.Address():
+		return "S"
 	}
 	return a.String()[:8]
 }
@@ -601,7 +774,7 @@ func (s *c21sys) tune(acct basics.Address, target uint64) *txntest.Txn {
 	w := s.w
 	bal := s.bal(acct)
 	fee := w.proto.MinTxnFee
-	if acct == w.target && bal >= target+fee {
+	if (acct == w.target || acct == w.other) && bal >= target+fee {
 		return &txntest.Txn{Type: "pay", Sender: acct, Receiver: w.rich, Amount: bal - fee - target, Fee: fee}
 	}
 	amt := uint64(0)
@@ -634,7 +807,12 @@ func c21ops() []c21op {
 		return p.SchemaMinBalancePerEntry*(u+b) + p.SchemaUintMinBalance*u + p.SchemaBytesMinBalance*b
 	}
 	// tOp: [tune T to min+need+fee(op)+delta ; op from T]
+	var aOp func(s *c21sys, acct basics.Address, need uint64, delta int, op *txntest.Txn) []*txntest.Txn
 	tOp := func(s *c21sys, need uint64, delta int, op *txntest.Txn) []*txntest.Txn {
+		return aOp(s, s.w.target, need, delta, op)
+	}
+	// aOp: [tune acct to min+need+fee(op)+delta ; op from acct]
+	aOp = func(s *c21sys, acct basics.Address, need uint64, delta int, op *txntest.Txn) []*txntest.Txn {
 		fillDefaults(s.w.t, s.w.l, s.ev, op)
 		var fee uint64
 		switch f := op.Fee.(type) {
@@ -645,7 +823,7 @@ func c21ops() []c21op {
 		case int:
 			fee = uint64(f)
 		}
-		return []*txntest.Txn{s.tune(s.w.target, c21target(s.min(s.w.target)+need+fee, delta)), op}
+		return []*txntest.Txn{s.tune(acct, c21target(s.min(acct)+need+fee, delta)), op}
 	}
 	for _, d := range []int{-1, 0, 1} {
 		d := d
@@ -856,6 +1034,128 @@ func c21ops() []c21op {
 	add(false, "W inner close-out to R", func(s *c21sys) []*txntest.Txn {
 		return wOp(s, 0, 0, nil, "co")
 	})
+
+	// family boxes: the sibling app S (same creator as W) works in W's box namespace; the
+	// deposit belongs to the OWNER W, which is funded to its post-op minimum + delta
+	fOp := func(s *c21sys, need uint64, delta int, box string, args ...string) []*txntest.Txn {
+		wa := s.w.worker.Address()
+		call := txntest.Txn{Type: "appl", Sender: s.w.rich, ApplicationID: s.w.sibling, ForeignApps: []basics.AppIndex{s.w.worker},
+			Boxes: []transactions.BoxRef{{Index: 1, Name: []byte(box)}, {}, {}, {}}}
+		return []*txntest.Txn{s.tune(wa, c21target(s.min(wa)+need, delta)), call.Args(args...)}
+	}
+	for _, d := range []int{-1, 0} {
+		d := d
+		add(d == 0, "S app_box_create W/\"f\" 16"+dn(d), func(s *c21sys) []*txntest.Txn {
+			return fOp(s, boxCost(&s.w.proto, "f", 16), d, "f", "fc", "f", c21u64(16))
+		})
+		add(true, "S app_box_put W/\"f\" 16 (new or existing)"+dn(d), func(s *c21sys) []*txntest.Txn {
+			need := boxCost(&s.w.proto, "f", 16)
+			if _, ok := s.resOf(s.w.worker.Address()).boxes["f"]; ok {
+				need = 0
+			}
+			return fOp(s, need, d, "f", "fp", "f", c21u64(16))
+		})
+		add(false, "S app_box_resize W/\"f\" to 64"+dn(d), func(s *c21sys) []*txntest.Txn {
+			cur, ok := s.resOf(s.w.worker.Address()).boxes["f"]
+			if !ok || cur >= 64 {
+				return nil
+			}
+			return fOp(s, s.w.proto.BoxByteMinBalance*uint64(64-cur), d, "f", "fr", "f", c21u64(64))
+		})
+	}
+	add(true, "S app_box_put W/\"a\" 1 (box made by W itself)", func(s *c21sys) []*txntest.Txn {
+		need := boxCost(&s.w.proto, "a", 1)
+		if _, ok := s.resOf(s.w.worker.Address()).boxes["a"]; ok {
+			need = 0
+		}
+		return fOp(s, need, 0, "a", "fp", "a", c21u64(1))
+	})
+	add(true, "S app_box_del W/\"f\"", func(s *c21sys) []*txntest.Txn {
+		if _, ok := s.resOf(s.w.worker.Address()).boxes["f"]; !ok {
+			return nil
+		}
+		return fOp(s, 0, 0, "f", "fd", "f")
+	})
+	add(true, "W pays out everything above its minimum", func(s *c21sys) []*txntest.Txn {
+		wa := s.w.worker.Address()
+		bal, m := s.bal(wa), s.min(wa)
+		if bal <= m {
+			return nil
+		}
+		call := txntest.Txn{Type: "appl", Sender: s.w.rich, ApplicationID: s.w.worker, Accounts: []basics.Address{s.w.rich}, ForeignAssets: []basics.AssetIndex{s.w.asset}}
+		c := call.Args("po", c21u64(bal-m))
+		fillDefaults(s.w.t, s.w.l, s.ev, c)
+		if f, ok := c.Fee.(basics.MicroAlgos); ok {
+			c.Fee = basics.MicroAlgos{Raw: f.Raw + 2*s.w.proto.MinTxnFee}
+		}
+		return []*txntest.Txn{c}
+	})
+
+	// size sponsorship: app X of R approves updates/deletes by anyone; a size-changing update
+	// moves the charge for X's global schema + extra pages to the updater
+	resize := func(s *c21sys, who basics.Address, u, b uint64, pages uint32, delta int) []*txntest.Txn {
+		var cur c21created
+		found := false
+		for _, r := range s.res {
+			if c, ok := r.created[s.w.appX]; ok {
+				cur, found = c, true
+			}
+		}
+		if !found {
+			return nil
+		}
+		p := &s.w.proto
+		need := sch(p, u, b) + p.AppFlatParamsMinBalance*uint64(pages)
+		payer := cur.sponsor
+		if payer.IsZero() {
+			payer = s.w.rich
+		}
+		if payer == who { // already paying for the old size
+			old := sch(p, cur.global.u, cur.global.b) + p.AppFlatParamsMinBalance*cur.pages
+			if old > need {
+				need = 0
+			} else {
+				need -= old
+			}
+		}
+		op := &txntest.Txn{Type: "appl", Sender: who, ApplicationID: s.w.appX, OnCompletion: transactions.UpdateApplicationOC,
+			ApprovalProgram: "int 1", ClearStateProgram: "int 1", GlobalStateSchema: basics.StateSchema{NumUint: u, NumByteSlice: b}, ExtraProgramPages: pages}
+		if who == s.w.rich {
+			return []*txntest.Txn{op}
+		}
+		return aOp(s, who, need, delta, op)
+	}
+	for _, d := range []int{-1, 0} {
+		d := d
+		add(true, "U resizes X to 8/0"+dn(d), func(s *c21sys) []*txntest.Txn { return resize(s, s.w.other, 8, 0, 0, d) })
+		add(false, "T resizes X to 2/1 +1 page"+dn(d), func(s *c21sys) []*txntest.Txn { return resize(s, s.w.target, 2, 1, 1, d) })
+	}
+	add(true, "R (creator) resizes X to 4/1", func(s *c21sys) []*txntest.Txn { return resize(s, s.w.rich, 4, 1, 0, 0) })
+	add(false, "U updates X without size change", func(s *c21sys) []*txntest.Txn {
+		found := false
+		for _, r := range s.res {
+			if _, ok := r.created[s.w.appX]; ok {
+				found = true
+			}
+		}
+		if !found {
+			return nil
+		}
+		return aOp(s, s.w.other, 0, 0, &txntest.Txn{Type: "appl", Sender: s.w.other, ApplicationID: s.w.appX, OnCompletion: transactions.UpdateApplicationOC,
+			ApprovalProgram: "int 1", ClearStateProgram: "int 1"})
+	})
+	add(true, "R deletes X", func(s *c21sys) []*txntest.Txn {
+		if _, ok := s.resOf(s.w.rich).created[s.w.appX]; !ok {
+			return nil
+		}
+		return []*txntest.Txn{{Type: "appl", Sender: s.w.rich, ApplicationID: s.w.appX, OnCompletion: transactions.DeleteApplicationOC}}
+	})
+	for _, d := range []int{-1, 0} {
+		d := d
+		add(true, "U balance := min"+dn(d), func(s *c21sys) []*txntest.Txn {
+			return []*txntest.Txn{s.tune(s.w.other, c21target(s.min(s.w.other), d))}
+		})
+	}
 	return ops
 }
 
@@ -875,6 +1175,9 @@ func (s *c21sys) apply(op int, coreOnly bool) (bool, error) {
 		return false, nil
 	}
 	ok, err := s.submit(txs)
+	if err == errC21orphanDev {
+		return false, nil
+	}
 	if err != nil {
 		var v *ve.Violation
 		if errors.As(err, &v) {
@@ -913,7 +1216,7 @@ func (s *c21sys) key() string {
 		ad := s.acct(a)
 		fmt.Fprintf(&b, "%x:%d:%x:{%s};", a[:4], ad.MicroAlgos.Raw, ad.AuthAddr[:4], s.resOf(a).dump())
 	}
-	fmt.Fprintf(&b, "ctr%d n%d", s.ev.TestingTxnCounter(), s.steps)
+	fmt.Fprintf(&b, "ctr%d n%d o%v", s.ev.TestingTxnCounter(), s.steps, s.orphaned)
 	return ve.HashKey([]byte(b.String()))
 }
 
@@ -968,8 +1271,12 @@ func TestVerif_C21(t *testing.T) {
 			r.Note("op %q was never accepted (rejected %d times)", o.name, w.opRej[i].Load())
 		}
 	}
-	r.Set("op_accepted_rejected", stats)
+	r.Set("op_accepted_rejected_incl_replays", stats)
 	r.Set("rejected_groups_skipped", w.rejected.Load())
+	r.Set("sponsor_account_closed_transitions", w.sponsorClosed.Load())
+	if n := w.orphanHits.Load(); n > 0 {
+		r.Note("DEVELOPMENT RUN: %d violations of class C21:orphaned-size-sponsorship were downgraded by VERIF_C21_DEV_ORPHAN_AS_NOTE", n)
+	}
 	cov.Rule = fmt.Sprintf("BFS over all histories of <= %d transaction groups from a %d-op alphabet%s (each op tunes the acting account to exactly the post-op minimum balance + delta, delta in {-1,0,+1}, then performs: payment, asset opt-in/create/opt-out, app create with schemas/extra pages, app opt-in/close-out/clear/delete, account close, rekey, and through an app account: box create/resize/delete, inner asset opt-in/out, inner app create, inner pay-out, inner close) in one block on the real evaluator; after every accepted group every modified account is zero or holds >= the minimum balance recomputed from its enumerated resources, which must equal the repo's MinBalance",
 		depth, len(w.ops), map[bool]string{false: "", true: fmt.Sprintf(", plus a %dth group from the %d-op core alphabet", coreDepth, nCore)}[coreDepth > depth])
 	r.Assume("group deltas (account records, asset/app resource records, kv records) are observed through the exported EvalTracer.AfterTxnGroup hook")
